@@ -1,6 +1,8 @@
-// IDEA mul_inv leaf lemma, split over the top four bits of the argument (16 queries of 2^12 arguments each): the single
-// query over all 2^16 arguments (idea_leaf_inv in conf.rs; Euclid loop = 36 32-bit divisions) does not finish in 15 min.
-// Each query: mul(k, mul_inv(k)) == 1 with the crate's own mul, which idea_leaf_mul proves to be multiplication mod 65537.
+// IDEA mul_inv leaf lemma, split over the top four bits of the argument (16 queries of 2^12 arguments each): a single
+// query over all 2^16 arguments (Euclid loop unrolled 10 times = 40 32-bit dividers) finishes neither with CaDiCaL nor
+// with Kissat in 900 s; each range takes about 3 minutes.  Together the 16 harnesses cover every u16 argument.
+// Each query: mul(k, mul_inv(k)) == 1 with the crate's own mul, which idea_leaf_mul (conf.rs) proves to be multiplication
+// mod 65537 with 0 = 2^16 on all 2^32 argument pairs; so mul_inv(k) is THE inverse of k in that group.
 use super::prelude::*;
 use crate::Idea;
 
